@@ -763,8 +763,11 @@ func (ed Editor) JustifyOpts(width int, opts Options) Editor {
 func (ed Editor) Overtype(charPos int, text string) Editor {
 	inboundText := gem.New(text)
 
+	// find the end of the overtyped range from the normalized position, not
+	// from the raw charPos (which may be negative, End, or out of range).
 	before := ed.CharsTo(charPos).Text
-	after := ed.CharsFrom(charPos + inboundText.Len()).Text
+	normalizedPos := gem.New(before).Len()
+	after := ed.CharsFrom(normalizedPos + inboundText.Len()).Text
 
 	ed.Text = before + inboundText.String() + after
 
